@@ -13,6 +13,10 @@ structural clauses are:
          conditional jump (encode_if_then) is bracketed by scope_begin / scope_end, so a local first assigned in a body
          that may be skipped does not keep a compile-time slot that is never created at run time (which would shift every
          local declared later).
+  C01.A  only statements declare locals in the enclosing scope: a local slot is the number of locals declared so far, which
+         equals its run-time position only when no temporaries of an enclosing expression are on the stack. An arm of
+         process_card may therefore declare a local outside a scope of its own only if it is the declaration statement
+         (SetVar); value-producing cards (Array ...) keep their intermediate results on the stack.
   C01.K  truthiness table: conditions and boolean operators see an object through CaoLangObject::is_empty - tables and
          strings are false exactly when their length is 0, every other object kind (functions, native functions,
          closures, upvalues) is true. Decided per variant by evaluating is_empty (and len, when it delegates to it) arm by
@@ -268,6 +272,35 @@ def rule_s(F):
     return res
 
 
+def rule_a(F):
+    res = []
+    fn = F.fn("compiler::Compiler::process_card")
+    arms, _pre, _tail = cs.arms_of(fn)
+    if arms is None:
+        raise AnchorMissing("match on CardBody in process_card")
+    n = 0
+    for arm in arms:
+        names = [v for v in arm.variants if v != "_"]
+        w = cw.Walk(F, fn, arm.env)
+        w.walk(arm.body)
+        decls = [ev for ev in w.events if ev[0] == "emit" and ev[1].rsplit("::", 1)[-1] in ("add_local", "add_local_unchecked")]
+        if not decls:
+            continue
+        n += 1
+        key = "C01/A/%s/locals-declared-by-statements-only" % "+".join(names)
+        loose = [ev for ev in decls if (ev[4] if len(ev) > 4 else 0) <= 0]
+        if loose and not set(names) <= {"SetVar"}:
+            res.append(bad("C01.A", key, fn.loc(loose[0][3]),
+                           "the %s arm declares a local in the enclosing scope although the card can be an operand: the slot is computed from "
+                           "the number of declared locals, at run time the temporaries of the enclosing expression sit there (`1 + len([7, 8])` "
+                           "evaluates to 2)" % "/".join(names)))
+        else:
+            res.append(ok("C01.A", key, fn.loc(decls[0][3]), "%d local(s), %s" % (len(decls), "the declaration statement" if loose else "inside the card's own scope")))
+    if n < 3:
+        raise AnchorMissing("arms of process_card that declare locals (found %d)" % n)
+    return res
+
+
 def rule_k(F):
     """per-variant symbolic value of CaoLangObject::is_empty: 'false', 'true', 'len==0' (payload length), or unknown"""
     res = []
@@ -453,6 +486,7 @@ RULES = [
     Rule("C01.T", rule_t, 36, "operator cards -> like-named instruction -> like operator"),
     Rule("C01.O", rule_o, 10, "operand order of binary operators"),
     Rule("C01.S", rule_s, 12, "scope / sub-index / nested-function brackets are balanced"),
+    Rule("C01.A", rule_a, 3, "only statements declare locals in the enclosing scope"),
     Rule("C01.K", rule_k, 6, "truthiness of every object kind"),
     Rule("C01.B", rule_b, 6, "conditionally executed children are scopes"),
     Rule("C01.L", rule_l, 7, "loop control state is hidden from scripts"),
